@@ -46,7 +46,8 @@ CHECKS = {
                 'rest is in a frozen table with reasons - so integer arithmetic on story values cannot panic in debug '
                 'while wrapping in release, nor panic on zero divisors, for any program. (B) in continue_internal a '
                 'step\'s StoryError always reaches add_error and is never propagated out of the interpreter loop; '
-                'add_error(false) force-ends. (C) reset_state replaces the whole state and re-runs reset_globals.',
+                'add_error(false) force-ends. (C) reset_state replaces the whole state and re-runs reset_globals.'
+                ' (D) no unwrap of a list item\'s optional origin name. (E) taint rule: no unwrap/expect of a downcast (or of peek itself) of a value taken from the evaluation stack, or of an operand inside NativeFunctionCall, unless that downcast was tested; the 4 exceptions rest on separately checked conditions: the Void test dominates every dispatch in NativeFunctionCall::call, the list-increment helper has one caller under both is_some tests, the Tag pop is dominated by is::<Tag>().',
         'design_ref': 'DESIGN.md §4 C04',
         'note': TRUST + ' Not decided: reachability of the interpreter\'s ~250 unwrap/index sites from compiler-accepted '
                 'programs (a per-site belief table would not be a decision).',
@@ -58,7 +59,8 @@ CHECKS = {
                 'call graph) each unwrap/expect, panic!/todo!, index/slice, len()-1 and Vec::remove is an obligation that '
                 'must be guard-dominated (is_some/is_ok/if-let on the same value, len() test for constant indices, depth '
                 'test for the depth increment); every recursion cycle among decoders must carry a depth bound or recurse '
-                'over a serde_json::Value parsed by serde_json::from_str. Holds for every document at once.',
+                'over a serde_json::Value parsed by serde_json::from_str. Holds for every document at once.'
+                ' Added: the same obligations over the interpreter primitives a document drives directly while Story::new interprets the global declarations (evaluation-stack pop / pop-multiple / peek / push, temporary-variable lookup by call-stack level); the evidence counts the reachable panic-capable constructs that are not decided.',
         'design_ref': 'DESIGN.md §4 C15',
         'note': TRUST + ' Not decided: termination ("within bounded time"); panics reached after a successful load of a '
                 'structurally valid but semantically impossible save; callees outside the decoder set that receive '
@@ -164,7 +166,8 @@ CHECKS = {
                 'the nesting count and no look-ahead rewind can follow them; in set_global the batch set is written only '
                 'with no patch active (guard-atom dataflow), the patch records look-ahead changes and apply_patch merges '
                 'them; set_variable notifies iff VariablesState::set reports a change; registrations are written only by '
-                'observe/remove/new and removal has no unguarded panic site.',
+                'observe/remove/new and removal has no unguarded panic site.'
+                ' Plus: start_variable_observation runs only when async_continue_active was false at entry (the batch is opened once per continue, not once per slice).',
         'design_ref': 'DESIGN.md §4 C11',
         'note': TRUST + ' Not decided: that delivered values equal what polling would show in every history.',
         'technique': 'static analysis: dominators, guard-atom dataflow, call-site counting, who-may-write via effect events',
@@ -175,7 +178,8 @@ CHECKS = {
                 'get_number_of_parameters = 1 + the largest constant index into params in the function call_type dispatches '
                 'to; for each ValueType variant the ordinal for which Value::cast answers "already this type" equals the '
                 'variant\'s discriminant (get_cast_ordinal reads the raw repr(u8) discriminant, so reordering the enum '
-                'silently changes every mixed-type operation); the 16 operator tokens the compiler emits are runtime names.',
+                'silently changes every mixed-type operation); the 16 operator tokens the compiler emits are runtime names.'
+                ' Plus: push_evaluation_stack rebuilds a list value\'s origins (every push onto InkList::origins is dominated by a clear), so origins are a function of the value, not of its history.',
         'design_ref': 'DESIGN.md §4 C07',
         'note': TRUST + ' Not decided: the values themselves (coercion results, list algebra, precedence) - needs an '
                 'independent evaluator and execution.',
@@ -188,7 +192,8 @@ CHECKS = {
                 'cache); (b) renderer and parser use the same separator, relative marker and parent token, the marker is '
                 'emitted iff is_relative and sets it when parsed, index components are printed/parsed symmetrically '
                 '(guard-atom dataflow); (c) Object::get_path names a component exactly under has_valid_name(), '
-                'Container::new registers exactly those children, and names are resolved through named_content.',
+                'Container::new registers exactly those children, and names are resolved through named_content.'
+                ' Plus: nothing but the producer and Clone reads the lazily filled text cache through a value it was given (a derived PartialEq would).',
         'design_ref': 'DESIGN.md §4 C19',
         'note': TRUST + ' Not decided: that every object of every story resolves back to itself (depends on story data).',
         'technique': 'static analysis: field-read sets, single-producer rule for a cache, guard-atom dataflow, constant agreement',
@@ -199,7 +204,8 @@ CHECKS = {
                 'serde_json::to_string, or a join/format of fragments satisfying the same rule (backward slicing through '
                 'closures and Vec pushes); escape_json_string covers quote, backslash and the whole range U+0000-U+001F; '
                 'a compile error reaches a non-zero process::exit, is printed through CompilerError\'s Display, and the '
-                'bytes written with -o derive only from the compiler\'s Ok payload.',
+                'bytes written with -o derive only from the compiler\'s Ok payload.'
+                ' Plus: the path / index handed to choose_path_string / choose_choice_index derives from the input line through parse_input by selection only (trim, split, index, parse), never through a rewriting function (case mapping, replace); displayed and accepted choice numbers use the same offset.',
         'design_ref': 'DESIGN.md §4 C20',
         'note': TRUST + ' Not decided: that the sequence of lines equals the library\'s for every program and input script.',
         'technique': 'static analysis: format_args site enumeration + backward slicing of interpolated arguments over MIR, char-table coverage',
@@ -211,7 +217,8 @@ CHECKS = {
                 'that very field; every place that empties the newline snapshot is the sanctioned rewind/commit function or '
                 'is followed by discard_snapshot on every path; rewind replaces the state as a whole; commit and rewind '
                 'both apply the patch unless a background save is active. If a piece of state were missing from the copy, '
-                'effects written after a line end would be lost whenever the look-ahead is committed.',
+                'effects written after a line end would be lost whenever the look-ahead is committed.'
+                ' (D) the function-start trimming marker is cleared on the whole run of function frames (store inside a loop over the frames), and set where a frame is pushed.',
         'design_ref': 'DESIGN.md §4 C01',
         'note': TRUST + ' NOT decided (the bulk of C01): that text, tags, choices and counts equal what the Ink language '
                 'prescribes for every program and choice path - that needs an independent interpreter and execution.',
@@ -225,7 +232,8 @@ CHECKS = {
                 'token is a runtime name; (c) the CONST resolution pass has an arm for every Node / Expression variant and '
                 'touches every Choice field that carries expressions (type-level walker coverage), and the validator\'s '
                 'lookup checkers return Err when every declared-name lookup fails. Two genuine gaps of (c) are recorded as '
-                'known findings (unknown functions and unknown variables are accepted).',
+                'known findings (unknown functions and unknown variables are accepted).'
+                ' Added clauses: every call of a function taking Option<&EmitContext> passes a context derived from the caller\'s own; keys of emitted list literals come from resolve_list_item (1 known finding); resolve_divert_target consults every flow-name table EmitScope::child_flow builds (derived from initialiser provenance) and returns a bare name only after a successful lookup (1 known finding).',
         'design_ref': 'DESIGN.md §4 C06',
         'note': TRUST + ' Not decided: termination and panic-freedom of the parser (run-time computed byte offsets), line '
                 'numbers of errors, that resolved paths in emitted JSON denote existing content, names inside choice text '
